@@ -37,7 +37,10 @@ class DPTSignedRelativeValue(DPTNumeric):
         """Serialize to KNX/IP raw data."""
         try:
             knx_value = int(value)
-            if not cls._test_boundaries(knx_value):
+            if not cls._test_boundaries(knx_value) or (
+                # int() truncates towards zero - a fraction beyond a limit is out of range
+                isinstance(value, float) and not cls._test_boundaries(value)  # type: ignore[arg-type]
+            ):
                 raise ValueError("Value out of range")
             if knx_value < 0:
                 knx_value += 0x100
